@@ -723,7 +723,7 @@ def r5_no_back_reference(m):
     builds the root twice (the copy's children point at a hidden twin)."""
     r = RuleResult("C18.R5", "besides its delivery queue the reader keeps no reference to an item it hands out (no cycle from a node through "
                              "its reader back to a node)")
-    r.floor = 2
+    r.floor = 1           # (methods of the reader that touch an item: two today; one is enough to show the extractor sees the class)
     RF_ = "fparser.common.readfortran"
     rb = m.key("FortranReaderBase", RF_)
     item_classes = {c["name"] for k, c in m.classes.items() if c["module"] == RF_ and
